@@ -47,7 +47,8 @@ func (c *Correctable) Watch(level int) <-chan struct{} {
 	ch := make(chan struct{})
 	c.mu.Lock()
 	defer c.mu.Unlock()
-	if level <= c.level {
+	if level <= c.level || c.done {
+		// a completed call never reaches a higher level: release the watcher at once
 		close(ch)
 		return ch
 	}
